@@ -143,14 +143,48 @@ pub struct Ctx {
     pub clock: Option<Arc<VClock>>,
     pub fs: Mutex<FsCtl>,
     pub sched: Option<Arc<crate::sched::Sched>>,
+    /// E1: timer threads (flushers) are parked at their `Tick` hook and unwound at the end
+    pub ticks: Mutex<TickCtl>,
+    pub ticks_cv: std::sync::Condvar,
 }
+
+#[derive(Default)]
+pub struct TickCtl {
+    pub park: bool,
+    pub parked: usize,
+    pub expected: usize,
+    pub released: bool,
+}
+
+/// Payload used to end a parked timer thread without invoking the panic hook.
+pub struct EndOfScenario;
 impl Ctx {
     pub fn with_clock(clock: Arc<VClock>) -> Arc<Self> {
         Arc::new(Self {
             clock: Some(clock),
             fs: Mutex::new(FsCtl::default()),
             sched: None,
+            ticks: Mutex::new(TickCtl {
+                park: true,
+                ..TickCtl::default()
+            }),
+            ticks_cv: std::sync::Condvar::new(),
         })
+    }
+    pub fn with_sched(clock: Option<Arc<VClock>>, sched: Arc<crate::sched::Sched>) -> Arc<Self> {
+        Arc::new(Self {
+            clock,
+            fs: Mutex::new(FsCtl::default()),
+            sched: Some(sched),
+            ticks: Mutex::new(TickCtl::default()),
+            ticks_cv: std::sync::Condvar::new(),
+        })
+    }
+    /// Ends all timer threads parked in this context.
+    pub fn release_ticks(&self) {
+        let mut g = self.ticks.lock().unwrap_or_else(|e| e.into_inner());
+        g.released = true;
+        self.ticks_cv.notify_all();
     }
 }
 
@@ -210,6 +244,32 @@ impl Handler for H {
         if let Some(c) = ctx() {
             if let Some(s) = c.sched.as_ref() {
                 s.sync_op(op);
+                return;
+            }
+            match op {
+                Op::Tick(_) => {
+                    let mut g = c.ticks.lock().unwrap_or_else(|e| e.into_inner());
+                    if g.park {
+                        g.parked += 1;
+                        c.ticks_cv.notify_all();
+                        while !g.released {
+                            g = c.ticks_cv.wait(g).unwrap_or_else(|e| e.into_inner());
+                        }
+                        drop(g);
+                        drop(c);
+                        std::panic::resume_unwind(Box::new(EndOfScenario));
+                    }
+                }
+                Op::Spawned("flusher" | "flw_flusher" | "flw_async_flusher") => {
+                    let mut g = c.ticks.lock().unwrap_or_else(|e| e.into_inner());
+                    if g.park {
+                        g.expected += 1;
+                        while g.parked < g.expected {
+                            g = c.ticks_cv.wait(g).unwrap_or_else(|e| e.into_inner());
+                        }
+                    }
+                }
+                _ => {}
             }
         }
     }
